@@ -1,5 +1,6 @@
 import CedarVerif.Lemmas.JsonExt
 import CedarVerif.Lemmas.JsonIpV4
+import CedarVerif.Lemmas.JsonIpV6
 /-
 C10: `ExtRoundTrip` (= `LeafOK canonRepr`) for ipaddr values whose canonical text parses back.
 -/
@@ -20,6 +21,11 @@ theorem leaf_ip_of_parse (v6 : Bool) (a p : Nat)
 /-- `ExtRoundTrip` for every IPv4 value -/
 theorem leaf_ip_v4 (a p : Nat) (ha : a < 2 ^ 32) (hp : p ≤ 32) : LeafOK canonRepr (.ipaddr false a p) :=
   leaf_ip_of_parse false a p (parse_renderIp_v4 a p ha hp)
+
+/-- `ExtRoundTrip` for every IPv6 value that is not an IPv4-mapped address (`::ffff:a.b.c.d`) -/
+theorem leaf_ip_v6 (a p : Nat) (ha : a < 2 ^ 128) (hp : p ≤ 128) (hm : isV4Mapped a = false) :
+    LeafOK canonRepr (.ipaddr true a p) :=
+  leaf_ip_of_parse true a p (parse_renderIp_v6 a p ha hp hm)
 
 /-- conversely, if the canonical text does not parse back to the value, the leaf does not round trip -/
 theorem not_leaf_ip_of_parse (v6 : Bool) (a p : Nat)
@@ -43,5 +49,10 @@ theorem not_leaf_ip_of_parse (v6 : Bool) (a p : Nat)
     rename_i v6' a' p'
     exact h (by rw [hp]; simp [hb])
 
+/-- IPv4-mapped IPv6 addresses do not round trip: `Display` prints `::ffff:a.b.c.d/p`, which `ip()` refuses -/
+theorem not_leaf_ip_v6_mapped (a p : Nat) (hm : isV4Mapped a = true) : ¬ LeafOK canonRepr (.ipaddr true a p) :=
+  not_leaf_ip_of_parse true a p (by rw [parse_renderIp_v6_mapped a p hm]; exact fun h => nomatch h)
+
 end CJson
 end Cedar
+
